@@ -1,6 +1,7 @@
 import PyrefactModel.C12.Match
 import PyrefactModel.C12.SelfMatch
 import PyrefactModel.C12.Windows
+import PyrefactModel.C12.WalkW
 /-!
 # C12 — pattern matching agrees with its declarative semantics (property theorems)
 
@@ -68,6 +69,20 @@ theorem sequence_windows_count (body : List Nat) (k : Nat) (hk : 1 ≤ k) (hlen 
 
 example : windowsPy [10, 11, 12, 13] 2 = [[10, 11], [11, 12], [12, 13]] := by decide
 example : windowsPy [10, 11, 12, 13, 14] 8 = [] := by decide
+
+/-- **The search reports exactly the matching nodes, each once**: for every scope (list of typed nodes), every tuple of
+alternative templates, every subclass relation and every matcher — a node is reported iff its type fits one of the templates and
+that template matches it; no node is reported twice, however the alternatives overlap -/
+theorem search_reports_exactly {ν τ β : Type} [DecidableEq ν] [DecidableEq τ]
+    (nodes : List (τ × ν)) (sub : τ → β → Bool) (m : β → ν → Bool) (tms : List β) :
+    (WalkW.walk nodes sub m tms).Nodup ∧
+    (∀ x, x ∈ WalkW.walk nodes sub m tms ↔ ∃ tm ∈ tms, ∃ t, (t, x) ∈ nodes ∧ sub t tm = true ∧ m tm x = true) :=
+  ⟨WalkW.walk_nodup nodes sub m tms,
+   fun x => ⟨WalkW.walk_sound nodes sub m tms x,
+             fun ⟨tm, htm, t, hx, hs, hm⟩ => WalkW.walk_complete nodes sub m tms tm t x htm hx hs hm⟩⟩
+
+example : WalkW.walk [("Module", 0), ("Expr", 1), ("Name", 2), ("Call", 3), ("Name", 4)]
+    (fun t tm => t == tm || (tm == "expr" && (t == "Name" || t == "Call"))) (fun _ _ => true) ["Name", "expr"] = [2, 4, 3] := by decide
 
 /-- **Completeness is false in general** (no backtracking across nested lists): the list
 `[1, 2, 3]` against `[*, x, *]` followed by a second occurrence `x := 2` — the first admissible split binds
